@@ -550,6 +550,12 @@ P_C20(pre, e) ==
                    (Has(post.ord, o) /\ post.ord[o].inbl /\ post.ord[o].selk \in DOMAIN e.a.rstat) =>
                        (e.a.settle[o].rstatus = e.a.rstat[post.ord[o].selk] /\ e.a.settle[o].mtype = e.a.mtype),
                 e.a.mid)
+          \* ... and the market's settlement terms: the dead-heat count of the closing book
+          /\ Ck("C20", "SettlementTermsFromClosingBook",
+                LET nW == Cardinality({rr \in DOMAIN e.a.rstat : e.a.rstat[rr] = "WINNER"})
+                IN \A o \in DOMAIN e.a.settle :
+                     (Has(post.ord, o) /\ post.ord[o].inbl /\ e.a.nwin > 0) => e.a.settle[o].ndh = (IF nW > e.a.nwin THEN nW ELSE 1),
+                <<e.a.mid, e.a.nwin, e.a.rstat>>)
           /\ Ck("C20", "StateReleased",
                 /\ \A k \in DOMAIN post.rc : post.rc[k].mid # e.a.mid
                 /\ ~e.a.mw_has,
